@@ -71,6 +71,10 @@ class Injector:
 
     def explore(self, call, max_points=None):
         """yields (k, site, ('ok', value) | ('raised', exception)) for every fault point k of call(); k = None is the fault-free run"""
+        try:        # warm-up without any interception: lazily compiled code (numba) must not be compiled while its globals are wrapped
+            call()
+        except Exception:  # noqa
+            pass
         with self.active(None):
             try:
                 out = ('ok', call())
